@@ -305,21 +305,33 @@ impl<T: Qcow2IoOps> Qcow2Dev<T> {
                 // then flush this l2 table, then decrease the
                 // old cluster's reference count in ram
 
-                // flush refcount change, which is often small
-                // change
-                self.flush_refcount().await?;
-
                 // release l2 table, so that this new mapping can be flushed
                 // to disk
                 drop(l2_table);
 
-                // flush this l2 slice via the common slice flush path: if
-                // the cluster holding it is still marked as new, it has to
-                // be zeroed and unmarked first, otherwise the slice would
-                // later be rebuilt from zeros (or wiped by the delayed
-                // zeroing) although its mapping is on disk
-                self.flush_cache_entries(vec![(split.l2_slice_key(info), l2_handle.clone())])
+                {
+                    // Keep the slice read-locked from before the refcount
+                    // flush until it has been written: another writer may
+                    // have mapped a cluster into it as soon as we let go of
+                    // the write lock, and that refcount has to be on disk
+                    // before the slice, too.
+                    let _l2_read = l2_handle.value().read().await;
+
+                    // flush refcount change, which is often small
+                    // change
+                    self.flush_refcount().await?;
+
+                    // flush this l2 slice via the common slice flush path: if
+                    // the cluster holding it is still marked as new, it has to
+                    // be zeroed and unmarked first, otherwise the slice would
+                    // later be rebuilt from zeros (or wiped by the delayed
+                    // zeroing) although its mapping is on disk
+                    self.flush_cache_entries(vec![(
+                        split.l2_slice_key(info),
+                        l2_handle.clone(),
+                    )])
                     .await?;
+                }
 
                 if compressed {
                     // the new mapping has to be durable before the refcounts
